@@ -40,6 +40,7 @@ ct_pname = z3.Function('ct_pname', Ty, I, S)
 ct_ptype = z3.Function('ct_ptype', Ty, I, Ty)
 ct_preq = z3.Function('ct_preq', Ty, I, B)
 ct_bases = z3.Function('ct_bases', Ty, so.TySeq)        # T.__bases__
+ct_base1 = z3.Function('ct_base1', Ty, Ty)              # T.__base__
 hook_recog_ok = z3.Function('hook_recog_ok', Ty, so.YNode, B)
 hook_recog_msg = z3.Function('hook_recog_msg', Ty, so.YNode, S)
 hook_recog_hasmsg = z3.Function('hook_recog_hasmsg', Ty, so.YNode, B)
@@ -363,6 +364,8 @@ class TypesPlugin:
                 return [(st, VStr(ct_name(v.t)))]
             if name in ('__dict__', '__bases__'):
                 return [(st, VTyAttr(v.t, name))]
+            if name == '__base__':
+                return [(st, VTy(ct_base1(v.t)))]
             if name in ('_yatiml_recognize', '_yatiml_savorize',
                         '_yatiml_sweeten'):
                 return [(st, VHook(v.t, name))]
